@@ -3,7 +3,7 @@
    holds; a machine-checked counterexample where it does not), optimality of solveQuadraticEdge on
    its interval, and the QpSparseArray scan/lookup agreement.  The step invariants of the
    multi-class solvers are in C16ProofsMc.v. *)
-From Coq Require Import QArith Qminmax Lqa Arith Bool List Lia.
+From Coq Require Import QArith Qminmax Qabs Lqa Arith Bool List Lia.
 From SharkV Require Import C08Model C08Defs C08ProofsBox C16Model.
 Import ListNotations. Open Scope Q_scope.
 
@@ -233,10 +233,12 @@ Proof.
   intros ai aj gi gj Qii Qij Qjj M G r HM HQ HD. unfold r, tri_unsnapped.
   destruct (fst (tri_free qops ai aj gi gj Qii Qij Qjj M)) eqn:F.
   - (* free optimum: same formula as the box solver *)
+    assert (Q0 : 0 <= Qii) by (apply HQ; exact F).
+    clear HQ HD.
     unfold tri_free in *. cbn [fst snd] in *.
     cbn [o_ltb o_thr o_zero o_add o_sub o_mul o_div qops] in *.
     apply andb_true_iff in F. destruct F as [F1 _]. apply qltb_true in F1.
-    pose proof (solve_2d_free_gain_nonneg gi gj Qii Qij Qjj (HQ eq_refl)) as P. cbv zeta in P.
+    pose proof (solve_2d_free_gain_nonneg gi gj Qii Qij Qjj Q0) as P. cbv zeta in P.
     specialize (P F1). unfold G, G2. cbn [fst snd].
     rewrite (gain2_compat gi gj Qii Qij Qjj _ ((Qjj * gi - Qij * gj) / (Qii * Qjj - Qij * Qij))
                           _ ((Qii * gj - Qij * gi) / (Qii * Qjj - Qij * Qij))); [exact P| |]; ring.
@@ -268,7 +270,7 @@ Theorem tri_gain_refuted : exists ai aj gi gj Qii Qij Qjj M,
    G2 ai aj gi gj Qii Qij Qjj r < 0).
 Proof.
   exists 1, 1, (1 # 1000000), (1 # 1000000), (1 # 1000000), 0, (1 # 1000000), 10.
-  repeat split; vm_compute; reflexivity.
+  repeat split; qdec.
 Qed.
 
 (* ------------------------------------------------------------ snapping moves little *)
@@ -330,7 +332,9 @@ Proof.
     + destruct k as [|k]; cbn [nth].
       * rewrite Nat.add_0_r. symmetry.
         apply (sa_lookup_default ((i, v) :: t) (Datatypes.S p) p); [split; [lia|exact S2] | lia].
-      * rewrite (IH ((i, v) :: t) (Datatypes.S p)) by (try lia; split; [lia|exact S2]).
+      * assert (S' : sorted_from (Datatypes.S p) ((i, v) :: t)) by (split; [lia|exact S2]).
+        assert (K' : (k < w)%nat) by lia.
+        rewrite (IH ((i, v) :: t) (Datatypes.S p) S' k K').
         f_equal. lia.
 Qed.
 End Sparse.
